@@ -234,7 +234,9 @@ def R5_settlement(run):
             oa = [s for s in subterms(a[0]) if s[0] == "call" and s[1].endswith("OracleAccessor::<'info>::new")]
             res = outer_calls(a[1], (SWAPFN, SWAPV2))
             ok = ok and oa and res and arg_name(a[1]) == "next_adaptive_fee_info" and all(_leg(r[2][0]) == _leg(oa[0][2][0]) for r in res)
-        run.check("R5", "oracle-updates@" + hp, ok, "%s does not store each leg's next_adaptive_fee_info into that leg's oracle" % hp, loc=h.loc(), detail="oracle_k <- result_k.next_adaptive_fee_info")
+            # ... on every successful path, as the single swap does (C14.R5): a write-back behind a condition leaves stale variables behind
+            ok = ok and cfg.must_pass_call(h, bi)[0]
+        run.check("R5", "oracle-updates@" + hp, ok, "%s does not store each leg's next_adaptive_fee_info into that leg's oracle on every successful path" % hp, loc=h.loc(), detail="oracle_k <- result_k.next_adaptive_fee_info")
     h = facts.need_fn(H2)
     cs = calls_to(h, ends("update_and_two_hop_swap_whirlpool_v2"))
     ok = len(cs) == 1
